@@ -127,6 +127,9 @@ Definition spec_holds (c : case) : bool :=
     (* the bound values are the argument values, in order *)
     && list_eqb scalar_eqb (o_vars (c_q c)) (expected_values false c)
     && list_eqb scalar_eqb (o_vars (c_d c)) (expected_values false c)
+    (* empty slices (and nil) are written as NULL: at least as many NULL words as the statement calls for *)
+    && (null_words (snd (statement false (c_ti c) (c_chain c) (c_fin c))) <=? nulls_in (o_sql (c_q c)))%nat
+    && (null_words (snd (statement false (c_ti c) (c_chain c) (c_fin c))) <=? nulls_in (o_sql (c_d c)))%nat
     (* what the driver received *)
     && (negb (c_ran c)
         || (negb (c_rerr c)
